@@ -55,6 +55,17 @@ func guardsOf(p *core.Program, n ast.Node, boundary ast.Node) []guard {
 	var child ast.Node = n
 	for x := p.Parent(n); x != nil && x != boundary; child, x = x, p.Parent(x) {
 		switch x := x.(type) {
+		case *ast.BinaryExpr:
+			// short-circuit evaluation: the right operand of && runs only when the left
+			// one is true, the right operand of || only when the left one is false
+			if child == ast.Node(x.Y) {
+				switch x.Op {
+				case token.LAND:
+					add(x.X, true)
+				case token.LOR:
+					add(x.X, false)
+				}
+			}
 		case *ast.IfStmt:
 			if child == ast.Node(x.Body) {
 				add(x.Cond, true)
@@ -77,6 +88,29 @@ func guardsOf(p *core.Program, n ast.Node, boundary ast.Node) []guard {
 				}
 				if ifs, ok := s.(*ast.IfStmt); ok && ifs.Else == nil && endsInJump(ifs.Body) {
 					add(ifs.Cond, false)
+				}
+			}
+			// type switch on X: `case nil` means X == nil, `case T` means X holds a T
+			// (rendered as the assertion X.(T)), `default` means none of the listed
+			if ts, ok := p.Parent(p.Parent(x)).(*ast.TypeSwitchStmt); ok {
+				if X := typeSwitchOperand(ts); X != nil {
+					mk := func(e ast.Expr) ast.Expr {
+						if id, isID := ast.Unparen(e).(*ast.Ident); isID && id.Name == "nil" {
+							n := &ast.Ident{Name: "nil", NamePos: id.Pos()}
+							synthNil[n] = true
+							return &ast.BinaryExpr{X: X, Op: token.EQL, Y: n, OpPos: id.Pos()}
+						}
+						return &ast.TypeAssertExpr{X: X, Type: e, Lparen: e.Pos()}
+					}
+					if len(x.List) == 1 {
+						add(mk(x.List[0]), true)
+					} else if x.List == nil {
+						for _, cl := range ts.Body.List {
+							for _, e := range cl.(*ast.CaseClause).List {
+								add(mk(e), false)
+							}
+						}
+					}
 				}
 			}
 			// tagless switch: the clause's own condition holds, and the
